@@ -9,6 +9,10 @@ Two suites drive the REAL aiohttp.web_protocol.RequestHandler (AppRunner + in-me
            after the same events; the parse items of each read come from an independent, uncapped shadow parser.
   hostile  byte streams from the HTTP-family generators (valid, smuggling classes, random mutations), random cuts,
            random handler behaviours: property oracle only.
+  special  mechanisms outside the Coq model, property oracle only: declined Upgrade requests with requests pipelined
+           behind them (_message_tail re-fed by finish_response), several upgrades per connection; the two independent
+           reasons for pausing the transport (pipeline queue full, body reader over its high-water mark) on a transport
+           that delivers nothing while paused; a transport that cannot pause (one request per read behind a full queue).
 
 The property oracle never looks at the model: an independent HTTP/1.x response framer over the transport bytes,
 the handler log, the loop exception handler and the protocol's queue length.
@@ -41,7 +45,8 @@ TRUSTED = [
 ASSUMPTIONS = [
     "The transport honours pause_reading(): no data_received() while reading is paused (true of asyncio selector transports).",
     "No Upgrade/CONNECT, no Expect: 100-continue, no write-side back-pressure, bodies below the StreamReader high-water mark, "
-    "no Server.shutdown() during the history (those paths are outside the model; the hostile suite's oracle still sees them).",
+    "no Server.shutdown() during the history (those paths are outside the model; the hostile and special suites' oracle "
+    "still sees declined upgrades and body-reader pauses).",
     "Model/implementation agreement is validated on the generated histories only.",
 ]
 
@@ -210,6 +215,8 @@ class Conn:
         self.pending: list[bytes] = []
         self.ka, self.linger = ka, linger
         self.honour_pause = honour_pause
+        self.invoke_limit = 400
+        self.runaway = False
         self.shadow_heads = 0
         self.order_log: list = []
         from aiohttp import web_protocol
@@ -219,6 +226,10 @@ class Conn:
         @web.middleware
         async def mw(request, handler):
             conn.invoked += 1
+            if conn.invoked > conn.invoke_limit and not conn.runaway:
+                # far more handler invocations than requests were sent: stop the connection, the oracle reports it
+                conn.runaway = True
+                conn.tr.peer_close()
             err = request._pre_handler_error is not None
             if err:
                 key = "E"
@@ -607,6 +618,9 @@ def oracle(conn: Conn, expect_heads: int | None, drained: bool):
         if expect_heads is not None and conn.parse_errors == 0 and not conn.pending and conn.handled < expect_heads:
             bad.append(("orphaned", f"the peer sent {expect_heads} complete requests, only {conn.handled} reached a handler, "
                                     "nothing is running and the connection is open"))
+    if conn.runaway:
+        bad.append(("order", f"runaway: more than {conn.invoke_limit} handler invocations on one connection; the same requests are "
+                             f"handled again and again (handled order starts {conn.order_log[:12]})"))
     # each request reaches a handler at most once
     seen_keys = [k for k in conn.order_log if isinstance(k, int)]
     dup = sorted({k for k in seen_keys if seen_keys.count(k) > 1})
